@@ -127,6 +127,17 @@ fn generate(rng: &mut Rng) -> ConnScenario {
         localization: gen_loc(rng),
         ..Default::default()
     };
+    // a chain of two filters (the second is offered whatever the first returned, also an empty list, and may add targets)
+    if rng.chance(1, 4) {
+        let f2 = match rng.below(6) {
+            0 => FiltRes::Error,
+            1 => FiltRes::Indices(vec![]),
+            2 => FiltRes::Indices((0..targets.len()).rev().filter(|_| rng.chance(2, 3)).collect()),
+            3 | 4 => FiltRes::Targets(vec![gen_target(rng, 92)]),
+            _ => FiltRes::Identity,
+        };
+        services.filter2 = Some(Script::always(Some(lat(rng)), f2));
+    }
     // a back-end whose first call fails although a second one would succeed: failing is failing
     if rng.chance(1, 10) {
         use crate::services::Call;
@@ -157,6 +168,7 @@ fn generate(rng: &mut Rng) -> ConnScenario {
         wplan: vec![],
         cap_ns: secs(900),
         prelude: vec![],
+        growth: None,
     };
     zero_time_noise(rng, &mut sc);
     // back-pressure while routing: one Keep Alive is held back by the transport across the completion of a back-end call
@@ -197,6 +209,26 @@ pub fn check(sc: &ConnScenario, out: &ConnOutcome, rep: &mut RunReport) {
     {
         rep.violate("filter_gets_discovery_output", format!("discovery returned {d} but the filter was offered {f}"));
     }
+    // with a second filter: it is offered what the first returned, and "what the filters returned" is its answer
+    let (filt_done, filt_call2) = if sc.services.filter2.is_some() {
+        let c2 = out.events("svc:filter2", "call").next().map(|e| e.detail["targets"].clone());
+        let d2 = out.events("svc:filter2", "done").next().map(|e| e.detail["result"].clone());
+        if let (Some(d), Some(f)) = (&filt_done, &c2)
+            && d != f
+        {
+            rep.violate("filter_gets_discovery_output", format!("the first filter returned {d} but the second was offered {f}"));
+        }
+        if filt_done.as_ref().is_some_and(|d| d != &json!("error")) && c2.is_none() && strat_call.is_some() {
+            rep.violate("strategy_gets_filter_output", format!("the first filter returned {} and the second filter was never asked, yet the strategy was offered {}", filt_done.clone().unwrap(), strat_call.clone().unwrap()));
+        }
+        if filt_done == Some(json!("error")) && c2.is_some() {
+            rep.violate("pipeline_stops_on_error", "the second filter was consulted after the first one failed".into());
+        }
+        (if filt_done == Some(json!("error")) { filt_done } else { d2 }, c2)
+    } else {
+        (filt_done, None)
+    };
+    let _ = filt_call2;
     if let (Some(d), Some(f)) = (&filt_done, &strat_call)
         && d != f
     {
